@@ -115,3 +115,72 @@ def token_dispatch(repo):
            "def joinSep : String := " + lean_str("-"),
            "end Dask.Generated.TokenDispatch", ""]
     return "\n".join(out)
+
+
+@table("TaskSpecIdentity")
+def task_spec_identity(repo):
+    """Shape of what every node class hands to tokenize (dask/_task_spec.py)."""
+    tree = parse(repo, "dask/_task_spec.py")
+
+    def returns(qual):
+        fn = find_def(tree, qual)
+        return [ast.unparse(n.value) for n in ast.walk(fn) if isinstance(n, ast.Return) and n.value is not None]
+
+    want = {
+        "Alias.__dask_tokenize__": ["(type(self).__name__, self.key, self.target)"],
+        "DataNode.__dask_tokenize__": ["(type(self).__name__, tokenize(self.value))"],
+        "Task.__dask_tokenize__": ["self._get_token()"],
+        "Task.__hash__": ["hash(self._get_token())"],
+        "NestedContainer.__dask_tokenize__": ["(type(self).__name__, self.klass, self._element_tokens())"],
+        "NestedContainer.__hash__": ["hash(tokenize(self))"],
+        "NestedContainer._element_tokens": ["tokens"],
+        "Dict._element_tokens": ["sorted((tokenize(kv) for kv in batched(self.args, 2, strict=True)))"],
+        "NestedContainer.to_container": ["constructor(args)"],
+        "Dict.constructor": ["dict(batched(args, 2, strict=True))"],
+    }
+    for qual, exp in want.items():
+        got = returns(qual)
+        if got != exp:
+            raise ExtractError(f"{qual} returns {got}, expected {exp}")
+    gt = ast.unparse(find_def(tree, "Task._get_token"))
+    if "tokenize((type(self).__name__, self.func, self.args, self.kwargs))" not in gt:
+        raise ExtractError("Task._get_token no longer tokenizes (type name, func, args, kwargs)")
+    eq = ast.unparse(find_def(tree, "GraphNode.__eq__"))
+    if "type(value) is not type(self)" not in eq or "return tokenize(self) == tokenize(value)" not in eq:
+        raise ExtractError("GraphNode.__eq__ is no longer `same class and same token`")
+    # NestedContainer._element_tokens: tokens = [tokenize(a) for a in self.args]; sorted only `if self.klass is <k>`
+    et = find_def(tree, "NestedContainer._element_tokens")
+    src = ast.unparse(et)
+    if "tokens = [tokenize(a) for a in self.args]" not in src:
+        raise ExtractError("NestedContainer._element_tokens no longer tokenizes every argument in order")
+    sorted_for = []
+    for node in ast.walk(et):
+        if isinstance(node, ast.If):
+            t = node.test
+            body = [ast.unparse(b) for b in node.body]
+            if (isinstance(t, ast.Compare) and ast.unparse(t.left) == "self.klass" and len(t.ops) == 1
+                    and isinstance(t.ops[0], ast.Is) and isinstance(t.comparators[0], ast.Name)
+                    and body == ["tokens.sort()"] and not node.orelse):
+                sorted_for.append(t.comparators[0].id)
+            else:
+                raise ExtractError("unexpected branch in NestedContainer._element_tokens: " + ast.unparse(t))
+    if "sort" in src.replace("tokens.sort()", "", len(sorted_for)):
+        raise ExtractError("NestedContainer._element_tokens sorts outside the recognised branch")
+    classes = []
+    for cname in ("List", "Tuple", "Set", "Dict"):
+        cls = find_def(tree, cname)
+        klass = None
+        for st in cls.body:
+            if isinstance(st, ast.Assign) and any(isinstance(t, ast.Name) and t.id == "klass" for t in st.targets) \
+                    and isinstance(st.value, ast.Name):
+                klass = st.value.id
+        if klass is None:
+            raise ExtractError(f"{cname}.klass not found")
+        classes.append((cname, klass))
+    out = ["namespace Dask.Generated.TaskSpecIdentity",
+           "/-- container class ↦ `klass` -/",
+           "def containerClasses : List (String × String) := [" + ", ".join(f"({lean_str(a)}, {lean_str(b)})" for a, b in classes) + "]",
+           "/-- `klass` values for which `NestedContainer._element_tokens` sorts the element tokens -/",
+           "def sortedKlasses : List String := [" + ", ".join(lean_str(k) for k in sorted_for) + "]",
+           "end Dask.Generated.TaskSpecIdentity", ""]
+    return "\n".join(out)
